@@ -452,7 +452,7 @@ def _sequence_common_getitem_impl(ctx: CallContext, typ: type) -> ImplReturn:
                                 if i == key.val:
                                     return member
                         else:
-                            index_from_back = -key.val + 1
+                            index_from_back = -key.val - 1
                             for i, (is_many, member) in enumerate(
                                 reversed(self_value.members)
                             ):
